@@ -16,7 +16,7 @@ HOSTILE_TEXT = [
     '&amp; literally', '<notatag>', ' nbsp ls', '--', '\\n',
     # text that LOOKS like a reference after parsing (decoding it a second time changes it),
     # a backslash path, other Unicode line boundaries
-    '&lt;VT&gt;', 'q=budget&region=wales&section=politics', '&#163;5 &pound;5', 'P_GFX\\W;C_1A', 'next\x85line\u2029para',
+    'zero\ufeffwidth no-break space inside', '&lt;VT&gt;', 'q=budget&region=wales&section=politics', '&#163;5 &pound;5', 'P_GFX\\W;C_1A', 'next\x85line\u2029para',
 ]
 CR_TEXT = ['a\ue00db', 'line\ue00d\nend', '\ue00d']
 NOTE_TEXT = ['(BONG)', '<VT IN>', '(', ')', '()', '<>', '( x )', '  (padded note)  ', '(half', 'half)',
@@ -30,7 +30,7 @@ HOSTILE_IDS = ['S1', 'S10', 'S1 ', ' S1', 's1', 'S01', 'A&B', 'x<y', 'q"q', "o'o
                'NEWS,AM,S1', 'SPORT,AM,S1', 'OPENMEDIA,7f3a.22,S10', '{6B29FC40-CA47-1067}', 'a{0}b', '%s %d {x}',
                'B"][itemID=\'B\'][itemID="B', 'éè', '\U0001F600',
                'a,b,c', '0', '-1', 'None', 'ID WITH SPACE', 'storyID', 'item', '..',
-               'NEWS&amp;SPORT', 'a&lt;b', 'x&#65;', 'P_GFX\\W;C_1A2B3C', 'tab\there', 'News\u2028Late', 'S1\x85A']
+               'NEWS&amp;SPORT', 'a&lt;b', 'x&#65;', 'P_GFX\\W;C_1A2B3C', 'tab\there', 'News\u2028Late', 'S1\x85A', 'A\ufeff1']
 
 
 def rng_for(seed, *parts):
@@ -299,7 +299,12 @@ def rand_story(rng, story_id, item_idgen, pool, n_items=None, layout=None, timin
 META_TAGS = ['roChannel', 'roEdDur', 'roTrigger', 'macroIn', 'macroOut']
 
 
-def rand_meta(rng, pool, used, schemas=('http://s/1', 'http://s/2', 'http://s/3')):
+# schema names are compared as exact text: these all name DIFFERENT schemas
+SCHEMAS = ('http://s/1', 'http://s/2', 'http://s/3', 'http://s/1#rights', 'http://s/1#timing', 'http://s/1/',
+           'https://s/1', 'http://S/1', 'HTTP://s/1', 'http://s:80/1', 'http://s/1?v=2', 'urn:mos:s1')
+
+
+def rand_meta(rng, pool, used, schemas=SCHEMAS):
     """A running-order metadata element with an identity not yet in `used`."""
     opts = [t for t in META_TAGS if (t, None) not in used]
     opts += [('mosExternalMetadata', s) for s in schemas if ('mosExternalMetadata', s) not in used]
